@@ -27,9 +27,10 @@ Headers == <<
 
 HdrSet == IF IOEnv.HDRS = "all" THEN 1 .. Len(Headers) ELSE { atoi(IOEnv.HDRS) }
 
-\* option-header bytes with nibbles 0,1,12(C),13(D),14(E),15(F) and extension bytes 242/243
+\* option-header bytes with nibbles 0,1,12(C),13(D),14(E),15(F) and extension bytes 242/243/254
+\* (E0 FE F2 = option 65535, so running sums past 65535 are reachable)
 Alphabet == { 0, 1, 13, 14, 15, 16, 17, 29, 30, 192, 193, 208, 209, 221, 222,
-              224, 225, 237, 238, 240, 242, 243, 255 }
+              224, 225, 237, 238, 240, 242, 243, 254, 255 }
 
 VARIABLES b, n
 vars == << b, n >>
